@@ -11,6 +11,7 @@ from math import ceil
 
 PROP = "C02"
 META = {
+ "claim": False,   # check does not pass yet on the unchanged tree (model disagreement under investigation)
  "engine": "S-scheduler",
  "text": "Coq theorems (Props/C02.v) about the executable model of Timeline/Track (Sched/Model.v), over ALL histories - any interleaving of ticks with schedule/update/mute/unmute/unschedule/clear/nudge, calls made from action callbacks, streams that raise at any index, device faults, both tolerance modes (induction over the history, no bound): for every weight on (note, channel), pending releases + note-offs sent = note-ons sent, hence #note-ons - #note-offs = #pending entries >= 0 for every key after every history (no stuck note, no double release); a stop-when-done timeline stops only with nothing pending; inactive/muted/zero-or-None amplitude or gate voices emit nothing and every other voice emits exactly one note-on and registers one release due duration*gate later; each release happens on the first tick at or after its due time (never early, never late, never in the onset's tick). Tied to /repo on every run by a correspondence check of random lifecycle histories executed on the real Timeline with a recording device and on the model inside Coq, plus an independent trace oracle (FIFO pairing per (note, channel), exact release tick, empty sounding set at StopIteration and at the end).",
  "note": "Trusted: Coq kernel+VM; the Python harness. Modelled, not verified: float arithmetic of isobar (exact integer units in the model); events are taken already resolved (C03 covers resolution); a scalar amplitude of None (TypeError in isobar) and callbacks that unschedule tracks from inside a tick are outside the generated domain. On-time release is proved on the track's clock per scheduler cycle; that track and timeline clocks run in step is validated by the correspondence, not proved.",
